@@ -415,6 +415,9 @@ class Engine:
         return k, spec
 
     def check_inv(self, st, spec, k, what, node):
+        for n, srt in spec.get('locals', {}).items():
+            if n not in st.env:       # declared local not yet bound: arbitrary value (invariant must guard its use)
+                st.env[n] = fresh_value(parse_sort(srt), n)
         for j, e in enumerate(spec.get('invariant', [])):
             g = self.spec_bool(e, st)
             self.oblige(st, g, f'loop{k}-inv[{j}]-{what}@L{node.lineno}', 'invariant', node, note=e)
@@ -942,6 +945,9 @@ class Engine:
         return self.getitem(base, idx, st, node)
 
     def getitem(self, base, idx, st, node):
+        if isinstance(base, VOpt):
+            self.oblige(st, z3.Not(base.isnone), f'no-TypeError-None@L{getattr(node, "lineno", 0)}', 'safety', node)
+            return self.getitem(base.val, idx, st, node)
         if isinstance(base, VTuple):
             if isinstance(idx, VInt):
                 k = z3.simplify(idx.t)
